@@ -286,8 +286,18 @@ func c08MkErr(shape string, msg, ctx []byte) (err error, client []byte) {
 }
 
 func c08Err(o *Out, kind, shape string, msg, ctx []byte) {
+	c08ErrD(o, kind, shape, msg, ctx, false)
+	// ... and with debug logging switched on (chihaya --debug): what the operator sees may grow, what the client is told may not
+	c08ErrD(o, kind+"-debug", shape, msg, ctx, true)
+}
+
+func c08ErrD(o *Out, kind, shape string, msg, ctx []byte, debug bool) {
 	err, client := c08MkErr(shape, msg, ctx)
-	in := map[string]interface{}{"t": "err", "shape": shape, "msg": hx(msg), "ctx": hx(ctx)}
+	in := map[string]interface{}{"t": "err", "shape": shape, "msg": hx(msg), "ctx": hx(ctx), "debug": debug}
+	if debug {
+		log.SetDebug(true)
+		defer log.SetDebug(false)
+	}
 	body, panicked, pmsg := c08Write(func(w *httptest.ResponseRecorder) error { return chttp.WriteError(w, err) })
 	c08Finish(o, kind, "err", "CErr "+cOpt(client != nil, cB(client)), in, body, panicked, pmsg)
 }
@@ -313,7 +323,7 @@ func c08Replay(o *Out, in map[string]interface{}) error {
 		}
 		c08Scr(o, "replay", fs)
 	case "err":
-		c08Err(o, "replay", jStr(in["shape"]), unhx(in["msg"]), unhx(in["ctx"]))
+		c08ErrD(o, "replay", jStr(in["shape"]), unhx(in["msg"]), unhx(in["ctx"]), jBool(in["debug"]))
 	default:
 		return fmt.Errorf("unknown case type")
 	}
